@@ -865,11 +865,10 @@ impl SerdeObject for Fq {
         if bytes.len() != SIZE {
             return None;
         }
-        Some(Self::from_raw_bytes_unchecked(bytes))
-        // let out = Self::from_raw_bytes_unchecked(&bytes);
-        // Self::is_less_than_modulus(&out.0.l).then(|| out)
-        // Note: The [0, p-1] check is not performed, as it would require a
-        // Montgomery reduction.
+        // A Montgomery representation is canonical iff its limbs, read as an
+        // integer, are in [0, p-1]; no Montgomery reduction is needed to check it.
+        let out = Self::from_raw_bytes_unchecked(bytes);
+        is_valid(&out.0.l).then_some(out)
     }
 
     fn to_raw_bytes(&self) -> Vec<u8> {
